@@ -164,6 +164,14 @@ def c_algebra(ctx, case):
     s = 2.5
     scaled = call(case, ubm, models=mu[None] + s * (case["models"] - mu[None]))
     ctx.close(scaled, s * base, "score(ubm + s*delta) == s*score(ubm + delta)", rtol=1e-9, atol=1e-12 * scale)
+    # ... also for a model that is only just off the UBM (a lightly adapted client): the score is linear, not zero.
+    # The offset is built per entry relative to that entry's own mean, so that it survives the rounding of mu + delta
+    tiny = 1e-7 * np.maximum(np.abs(mu), 1e-3 * np.sqrt(p["variances"]))[None] * np.sign(case["models"] - mu[None] + 1e-300)
+    m_tiny = mu[None] + tiny
+    got_tiny = call(case, ubm, models=m_tiny)
+    want_tiny = ref.linear_score(m_tiny, p["means"], p["variances"], case["stats"], case["offsets"], case["normalise"])
+    mag_t = float(np.abs(want_tiny).max()) + 1e-300
+    ctx.close(got_tiny, want_tiny, "score of a model 1e-7 (relative) off the UBM", rtol=1e-6, atol=1e-6 * mag_t)
     # additivity in delta
     if len(case["models"]) >= 2:
         d0 = case["models"][0] - mu
